@@ -208,7 +208,7 @@ mod __verif_c05s {
     #[kani::unwind(3)]
     fn not_of_a_comparison() {
         let w = any_world();
-        let a = any_leaf_i64_or_f64(kani::any());
+        let a = any_leaf_i64_or_f64(true);
         let p = not(leaf_expr(&a));
         check(&w, &p, not3(leaf_tv(&a, w.row)));
         std::mem::forget(p);
@@ -223,7 +223,7 @@ mod __verif_c05s {
     #[kani::unwind(3)]
     fn and_of_two_comparisons() {
         let w = any_world();
-        let (a, b) = (any_leaf_i64_or_f64(false), any_leaf_i64_or_f64(kani::any()));
+        let (a, b) = (any_leaf_i64_or_f64(false), any_leaf_i64_or_f64(true));
         let p = bin(&a, BinaryOp::And, &b);
         check(&w, &p, and3(leaf_tv(&a, w.row), leaf_tv(&b, w.row)));
         std::mem::forget(p);
@@ -238,7 +238,7 @@ mod __verif_c05s {
     #[kani::unwind(3)]
     fn or_of_two_comparisons() {
         let w = any_world();
-        let (a, b) = (any_leaf_i64_or_f64(false), any_leaf_i64_or_f64(kani::any()));
+        let (a, b) = (any_leaf_i64_or_f64(false), any_leaf_i64_or_f64(true));
         let p = bin(&a, BinaryOp::Or, &b);
         check(&w, &p, or3(leaf_tv(&a, w.row), leaf_tv(&b, w.row)));
         std::mem::forget(p);
@@ -255,10 +255,12 @@ mod __verif_c05s {
         let w = any_world();
         let (a, b) = (any_leaf_i64(false), any_leaf_i64(false));
         let (ta, tb) = (leaf_tv(&a, w.row), leaf_tv(&b, w.row));
-        let is_and: bool = kani::any();
-        let p = not(bin(&a, if is_and { BinaryOp::And } else { BinaryOp::Or }, &b));
-        check(&w, &p, not3(if is_and { and3(ta, tb) } else { or3(ta, tb) }));
+        let p = not(bin(&a, BinaryOp::And, &b));
+        check(&w, &p, not3(and3(ta, tb)));
         std::mem::forget(p);
+        let q = not(bin(&a, BinaryOp::Or, &b));
+        check(&w, &q, not3(or3(ta, tb)));
+        std::mem::forget(q);
         std::mem::forget(w);
     }
 
@@ -296,18 +298,21 @@ mod __verif_c05s {
     fn in_list_predicate() {
         let w = any_world();
         let (x, y): (i64, i64) = kani::any();
-        let negated: bool = kani::any();
         let t = match w.row {
             None => Tv::N,
             Some(v) => or3(tv(v == x), tv(v == y)),
         };
-        let p = Expr::InList {
+        let mk = |negated: bool| Expr::InList {
             expr: Box::new(Expr::Column(Column::new("c"))),
             list: vec![Expr::Literal(ScalarValue::Int64(x)), Expr::Literal(ScalarValue::Int64(y))],
             negated,
         };
-        check(&w, &p, if negated { not3(t) } else { t });
+        let p = mk(false);
+        check(&w, &p, t);
         std::mem::forget(p);
+        let q = mk(true);
+        check(&w, &q, not3(t));
+        std::mem::forget(q);
         std::mem::forget(w);
     }
 
